@@ -253,4 +253,19 @@ def ref_ih_view(h, result, depth=None):
     return list(got.tolist()) == [t[depth] for t in tree]
 
 
-REFS = dict(ref_ih_view=ref_ih_view, ref_ih_coherent=ref_ih_coherent, ref_series_assign=ref_series_assign, ref_has_missing=ref_has_missing, ref_index_equals=ref_index_equals, ref_series_equals=ref_series_equals, ref_set_fold=ref_set_fold, labels_of_array=labels_of_array, ref_map_slice_args=ref_map_slice_args, ref_windows=ref_windows, observed_windows=observed_windows, windows_agree=windows_agree, ref_tb_equals=ref_tb_equals, ref_slices_from_targets=ref_slices_from_targets)
+def ref_dtype_per_depth(level, yields):
+    """the dtype yielded for a depth can hold every label of every index node at that depth"""
+    import numpy as np
+    level = getattr(level, 'obj', level)
+    from static_frame.core.util import resolve_dtype
+    ys = list(yields)
+    if len(ys) != level.depth:
+        return False
+    for d, dt in enumerate(ys):
+        for nd in level.dtypes_at_depth(d):
+            if resolve_dtype(np.dtype(dt), np.dtype(nd)) != np.dtype(dt):
+                return False
+    return True
+
+
+REFS = dict(ref_dtype_per_depth=ref_dtype_per_depth, ref_ih_view=ref_ih_view, ref_ih_coherent=ref_ih_coherent, ref_series_assign=ref_series_assign, ref_has_missing=ref_has_missing, ref_index_equals=ref_index_equals, ref_series_equals=ref_series_equals, ref_set_fold=ref_set_fold, labels_of_array=labels_of_array, ref_map_slice_args=ref_map_slice_args, ref_windows=ref_windows, observed_windows=observed_windows, windows_agree=windows_agree, ref_tb_equals=ref_tb_equals, ref_slices_from_targets=ref_slices_from_targets)
